@@ -208,6 +208,8 @@ def _enumerate(I, a, k):
     start = a[1] if len(a) > 1 else k.get("start", 0)
     if isinstance(it, SIter):
         return SIter(it.length, lambda j: (wrap(j + term(start)), it.item(j)), it.on_iter)
+    if isinstance(it, (list, tuple)) and isinstance(start, (int, np.integer)):
+        return [(int(start) + j, x) for j, x in enumerate(it)]
     return NotImplemented
 
 
@@ -1645,3 +1647,18 @@ def _count_nonzero(I, a, k):
     if axis is None and x.ndim > 1:
         return _unbox(A.reduce_axis(A.reshape(nz, (-1,)), 0, "count_nonzero", np.dtype("int64"), ax))
     return _unbox(A.reduce_axis(nz, axis if axis is not None else 0, "count_nonzero", np.dtype("int64"), ax))
+
+
+@model(np.linspace)
+def _linspace(I, a, k):
+    """np.linspace(start, stop, num) with a concrete num: element j = start + j * (stop - start) / (num - 1)  (endpoint=True; reals)"""
+    if not _anysym(a, k):
+        return NotImplemented
+    num = k.get("num", a[2] if len(a) > 2 else 50)
+    if not isinstance(num, (int, np.integer)) or k.get("endpoint", True) is not True or k.get("retstep"):
+        raise Unsupported("linspace with a symbolic number of points / endpoint=False")
+    st, sp = to_real(term(a[0])), to_real(term(a[1]))
+    num = int(num)
+    if num == 1:
+        return SArr(np.dtype("float64"), (1,), lambda idx: st)
+    return SArr(np.dtype("float64"), (num,), lambda idx: st + to_real(A.T(idx[0])) * (sp - st) / (num - 1))
